@@ -2700,8 +2700,17 @@ func ruleR266(c *Ctx) {
 					}
 					e, pos = unparen(u.X), !pos
 				}
-				if pos && isCAS(e) {
-					won = true
+				if pos {
+					srcs := resolveLocalExpr(in, f, e)
+					all := len(srcs) > 0
+					for _, src := range srcs {
+						if !isCAS(unparen(src)) {
+							all = false
+						}
+					}
+					if all {
+						won = true
+					}
 				}
 			}
 			if won {
